@@ -17,6 +17,7 @@ import (
 	"verifharness/internal/c17"
 	"verifharness/internal/c19"
 	"verifharness/internal/c20"
+	"verifharness/internal/findcli"
 	"verifharness/internal/ingestapi"
 	"verifharness/internal/pc"
 	"verifharness/internal/pubapi"
@@ -48,6 +49,7 @@ var commands = map[string]func(args []string) *rep.Report{
 	"c01pair": c01.RunPairs,
 	"x01":     pubapi.Run,
 	"x02":     ingestapi.Run,
+	"x03":     findcli.Run,
 }
 
 func main() {
